@@ -58,6 +58,10 @@ def generate(seed, tier):
     rng = S("gen")
     model, names, params = gen.gen_model(rng, stochastic=False, p=rng.randint(1, 4), m=rng.randint(1, 5),
                                          with_odes=rng.random() < 0.25)
+    if model["processes"] and rng.random() < 0.2:
+        # the same process entered twice (identical origin, destination and rate string): its rate counts twice
+        import copy as _copy
+        model["processes"].insert(rng.randint(0, len(model["processes"])), _copy.deepcopy(rng.choice(model["processes"])))
     for pr in model["processes"]:
         pr["route"] = "event"
     variants = [gen_variant(rng, model, names) for _ in range(rng.randint(2, 4))]
